@@ -757,6 +757,25 @@ fn gen_audit(em: &mut Emitter) {
         let s = mutate(&mut rng, &base, &DT_MUT_ALPHA);
         time_fmt_case(em, i % 4, &s, "mutated");
     }
+    // (a') the value Time::parse returns for a leap second lies outside the day: the Timelike getters panic on it
+    for text in ["23:59:60", "00:00:60", "12:34:60", "23:59:59", "12:34:56", "00:00:00"] {
+        let desc = format!("Time::parse({:?}, Some(\"%H:%M:%S\")) then .hour()", text);
+        em.case("exact", &format!("fn=Time::parse+getter leap={}", text.ends_with("60") as u8), &desc,
+            || format!("tmleap {}", coq_str(text)), || {
+            use tevec::export::chrono::Timelike;
+            match Time::parse(text, Some("%H:%M:%S")) {
+                Err(_) => vec![Cell::Err],
+                Ok(t) => {
+                    let mut c = vec![Cell::Int(t.0 as i128)];
+                    match guarded(move || t.hour()) {
+                        Ok(h) => c.push(Cell::Int(h as i128)),
+                        Err(k) => c.push(Cell::Panic(k)),
+                    }
+                    c
+                }
+            }
+        });
+    }
     // (b) Debug / Display of Time (impl_time.rs `fmt`): "Time(<i64>)", both the same text; and the text is not a time
     let mut ts: Vec<i64> = vec![0, 1, -1, 9, 10, -10, 86_399_999_999_999, 86_400_000_000_000, i64::MIN, i64::MAX, i64::MIN + 1];
     for _ in 0..(if thorough { 200 } else { 30 }) {
